@@ -22,7 +22,7 @@ REAL_VS_STUB = {"real": ["load_ff_library, ff/itp parsers, MetaMolecule builders
                          "find_missing_edges, vermouth write_molecule_itp + DeferredFileWriter, Topology.from_gmx_topfile, "
                          "bin/polyply main() (argument parsing) in a fraction of the calls, real file system"],
                 "stub": ["tqdm disabled", "sys.argv pinned", "os.listdir of the library directory sorted/permuted by the harness"]}
-PROBES = ["read_back_next_to_lower_case_namesake", "read_back_through_nested_include", "read_back_from_other_cwd_with_decoy", "read_back_with_guard_tags_defined", "publish_across_filesystems", "via_main", "same_path_backup", "after_failed_call", "cwd_differs", "lib_job", "conditional_interactions",
+PROBES = ["atom_deleting_link", "read_back_next_to_lower_case_namesake", "read_back_through_nested_include", "read_back_from_other_cwd_with_decoy", "read_back_with_guard_tags_defined", "publish_across_filesystems", "via_main", "same_path_backup", "after_failed_call", "cwd_differs", "lib_job", "conditional_interactions",
           "json_graph", "cyclic_graph"]
 
 
@@ -37,10 +37,10 @@ def gen_job(verif_seed, tier, index):
     hs = st.env.choice(histgen.PALETTE)
     nops = g.randint(1, 6)
     ops = []
-    ff = ffgen.gen_ff(g)
+    ff = ffgen.gen_ff(g, removal_p=0.15)
     for k in range(nops):
         if g.random() < 0.3:
-            ff = ffgen.gen_ff(g)
+            ff = ffgen.gen_ff(g, removal_p=0.15)
         rg = ffgen.gen_resgraph(g, ff)
         if g.random() < 0.06:
             ff, rg = ffgen.gen_ff_linktype(g)
@@ -87,6 +87,8 @@ def run_job(job):
         expect_fail = op.get("expect") == "fail"
         if op.get("read_with_decoy_in_cwd"):
             probes["read_back_from_other_cwd_with_decoy"] = probes.get("read_back_from_other_cwd_with_decoy", 0) + 1
+        if any("atomname\": null" in t for _f, t in op.get("files", [])):
+            probes["atom_deleting_link"] = probes.get("atom_deleting_link", 0) + 1
         if op.get("read_with_case_decoy"):
             probes["read_back_next_to_lower_case_namesake"] = probes.get("read_back_next_to_lower_case_namesake", 0) + 1
         if op.get("read_indirect"):
